@@ -523,11 +523,13 @@ class IterProtocol:
             try:
                 for s2, kind, r in I.ev(loop["body"], s):
                     s2.frame, s2.gen = saved
-                    if kind == "val" or (kind == "cont" and r[0] == loop.get("label")):
+                    # (labels are lexically scoped and this is the outermost loop of the body: a `continue`/`break` that
+                    # leaves its body can only be aimed at it)
+                    if kind == "val" or kind == "cont":
                         res.append((s2, BACK, I.read_loc(s2, key, ()), n0))
                     elif kind == "ret":
                         res.append((s2, r, I.read_loc(s2, key, ()), n0))
-                    elif kind == "brk" and r[0] == loop.get("label"):
+                    elif kind == "brk":
                         res.append((s2, r[1], I.read_loc(s2, key, ()), n0))
                     elif kind == "panic":
                         pass
